@@ -32,7 +32,7 @@ type SpecP struct {
 	R         int32   `json:"r"`
 	Slots     []int32 `json:"slots,omitempty"`
 	Parallel  bool    `json:"parallel,omitempty"`
-	Strategy  int     `json:"strategy"` // 0 RollingUpdate{partition}, 1 RollingUpdate with nil block, 2 OnDelete
+	Strategy  int     `json:"strategy"` // 0 RollingUpdate{partition}, 1 RollingUpdate with nil block, 2 OnDelete, 3 OnDelete with a left-over rollingUpdate{partition} block (the CRD admits it)
 	Partition int32   `json:"partition,omitempty"`
 	Limit     int32   `json:"limit"`
 	Claims    int     `json:"claims,omitempty"`
@@ -73,6 +73,9 @@ type World struct {
 	// OrphanRevs: unowned ControllerRevisions matching the selector (waiting for adoption)
 	OrphanRevs []ORev `json:"orphan_revs,omitempty"`
 	Ops        []Op   `json:"ops,omitempty"`
+	// CloseLag: in the fair closing schedule the kubelet acts only after CloseLag extra reconciles of each
+	// round (so reconciles do observe terminating / not yet ready pods)
+	CloseLag int `json:"close_lag,omitempty"`
 }
 
 // Op kinds
@@ -213,6 +216,10 @@ func applySpec(set *asv1.StatefulSet, s SpecP) {
 		set.Spec.UpdateStrategy = asv1.StatefulSetUpdateStrategy{Type: asv1.RollingUpdateStatefulSetStrategyType}
 	case 2:
 		set.Spec.UpdateStrategy = asv1.StatefulSetUpdateStrategy{Type: asv1.OnDeleteStatefulSetStrategyType}
+	case 3:
+		p := s.Partition
+		set.Spec.UpdateStrategy = asv1.StatefulSetUpdateStrategy{Type: asv1.OnDeleteStatefulSetStrategyType,
+			RollingUpdate: &asv1.RollingUpdateStatefulSetStrategy{Partition: &p}}
 	}
 	l := s.Limit
 	set.Spec.RevisionHistoryLimit = &l
@@ -634,7 +641,7 @@ func (s *Sys) envOp(k, a, b int) {
 		s.logf("user: revisionHistoryLimit=%d", v)
 	case OpEditStrategy:
 		c.UpdateSet(NS, s.Name, func(x *asv1.StatefulSet) {
-			sp := SpecP{Strategy: abs(a) % 3, Partition: int32(abs(b) % 6)}
+			sp := SpecP{Strategy: abs(a) % 4, Partition: int32(abs(b) % 6)}
 			switch sp.Strategy {
 			case 0:
 				p := sp.Partition
@@ -643,6 +650,9 @@ func (s *Sys) envOp(k, a, b int) {
 				x.Spec.UpdateStrategy = asv1.StatefulSetUpdateStrategy{Type: asv1.RollingUpdateStatefulSetStrategyType}
 			case 2:
 				x.Spec.UpdateStrategy = asv1.StatefulSetUpdateStrategy{Type: asv1.OnDeleteStatefulSetStrategyType}
+			case 3:
+				// switched to OnDelete by a patch that touches only the type: the block stays
+				x.Spec.UpdateStrategy.Type = asv1.OnDeleteStatefulSetStrategyType
 			}
 			s.logf("user: strategy=%d partition=%d", sp.Strategy, sp.Partition)
 		})
@@ -805,7 +815,7 @@ func genSpec(rt *rapid.T, maxR int) SpecP {
 		Name:     rapid.SampledFrom([]string{"web", "web", "web-1", "a", "db-0-x"}).Draw(rt, "name"),
 		R:        int32(rapid.IntRange(0, maxR).Draw(rt, "replicas")),
 		Parallel: rapid.Bool().Draw(rt, "parallel"),
-		Strategy: rapid.SampledFrom([]int{0, 0, 0, 0, 1, 2}).Draw(rt, "strategy"),
+		Strategy: rapid.SampledFrom([]int{0, 0, 0, 0, 0, 0, 1, 1, 2, 2, 3}).Draw(rt, "strategy"),
 		Limit:    rapid.SampledFrom([]int32{0, 1, 2, 3, 10, 10}).Draw(rt, "limit"),
 		Claims:   rapid.SampledFrom([]int{0, 0, 0, 1, 2}).Draw(rt, "claims"),
 	}
@@ -818,8 +828,11 @@ func genSpec(rt *rapid.T, maxR int) SpecP {
 			s.Slots = append(s.Slots, k)
 		}
 	}
-	if s.Strategy == 0 {
+	if s.Strategy == 0 || s.Strategy == 3 {
 		s.Partition = int32(rapid.SampledFrom([]int{0, 0, 0, 1, 2, 3, 4, 6, 9}).Draw(rt, "partition"))
+	}
+	if s.Claims > 0 {
+		s.ClaimLabels = rapid.IntRange(0, 2).Draw(rt, "claimLabels") == 0
 	}
 	return s
 }
@@ -840,12 +853,20 @@ func genHist(rt *rapid.T) []int {
 // genPods draws a constructed pod population over ordinals 0..8 (by construction, no rejection).
 func genPods(rt *rapid.T, histLen int, orphans bool) []PodP {
 	var pods []PodP
-	for ord := 0; ord <= 8; ord++ {
+	// a fifth of the populations also reach two-digit ordinals (9..12): name order and numeric order differ there
+	maxOrd := 8
+	if rapid.IntRange(0, 4).Draw(rt, "twoDigitOrdinals") == 0 {
+		maxOrd = 12
+	}
+	for ord := 0; ord <= maxOrd; ord++ {
 		// presence is biased towards low ordinals
 		pres := rapid.IntRange(0, 9).Draw(rt, "present")
 		limit := 7
 		if ord > 4 {
 			limit = 3
+		}
+		if ord > 8 {
+			limit = 5
 		}
 		if pres >= limit {
 			continue
@@ -923,13 +944,27 @@ func summarizeWorld(w World) map[string]interface{} {
 func (s *Sys) Converge(maxRounds int) (fixed bool, rounds int, livelock bool) {
 	seen := map[string]int{}
 	prev := s.C.Dump()
-	for i := 0; i < maxRounds; i++ {
-		r := s.FairRound()
+	lag := 0
+	if s.W != nil {
+		lag = s.W.CloseLag
+	}
+	for i := 0; i < maxRounds*(lag+1); i++ {
+		r := s.Reconcile(&Op{K: OpReconcile})
+		writes := len(r.Writes())
+		err := r.Err
+		for j := 0; j < lag; j++ {
+			rr := s.Reconcile(&Op{K: OpReconcile})
+			writes += len(rr.Writes())
+			if rr.Err != nil {
+				err = rr.Err
+			}
+		}
+		s.KubeletAll()
 		cur := s.C.Dump()
-		if len(r.Writes()) == 0 && r.Err == nil && cur == prev {
+		if writes == 0 && err == nil && cur == prev {
 			return true, i + 1, false
 		}
-		if len(r.Writes()) > 0 {
+		if writes > 0 {
 			if _, dup := seen[cur]; dup {
 				return false, i + 1, true
 			}
